@@ -57,6 +57,19 @@ void picture_case(const Pic& p, Stats& st) {
 		BitmapFile fromBmp = load(bmp_bytes(src));
 		same_picture(fromBmp, p, "loaded from standard bitmap");
 		V_CHECK(fromBmp.imageHeader.height == src.imageHeader.height, "standard bitmap orientation not kept as stored");
+		// the same picture as an independently encoded standard bitmap: optional header fields stated the way ordinary encoders do
+		for (unsigned variant = 0; variant < 3; ++variant) {
+			refgfx::LBmp L; L.depth = 8; L.width = 32; L.height = bu ? int32_t(p.h) : -int32_t(p.h);
+			for (auto& c : p.pal) L.palette.push_back({c[0], c[1], c[2], c[3]});   // file order == the library's in-memory Color byte order (cf. C08)
+			L.pixels = src.pixels;
+			if (variant >= 1) { L.imageSize = uint32_t(L.pixels.size()); L.xRes = 2835; L.yRes = 2835; }
+			if (variant == 2) { L.usedColors = 256; L.importantColors = 256; }
+			BitmapFile fromRef; std::string what;
+			Out o = guarded([&] { fromRef = load(refgfx::encode_bmp(L)); }, &what);
+			V_CHECK(o == Out::Ok, "tileset stored as a standard bitmap (" << (bu ? "bottom-up" : "top-down") << ", height " << p.h << ", stated image size " << L.imageSize << ", used colours " << L.usedColors << ") refused: " << what);
+			same_picture(fromRef, p, "loaded from an independently encoded standard bitmap");
+			V_CHECK(fromRef.imageHeader.height == L.height, "standard bitmap orientation not kept as stored");
+		}
 	}
 	st.cls("picture:h" + std::to_string(std::min<uint32_t>(p.h / 32, 9)) + "tiles");
 	bool rb = false; for (auto& c : p.pal) if (c[0] != c[2]) rb = true;
